@@ -58,13 +58,18 @@ def scenarios(quick):
             out.append({'name': '%s: %s || %s' % (name, o[a]['tag'], o[b]['tag']),
                         'setup': setup, 'requests': [o[a], o[b]], 'bound': None,
                         'max_exec': 6000})
-        if not quick and name == 'K1 present':
-            for a, b, c in [(1, 2, 9), (0, 1, 6), (1, 5, 8), (1, 4, 6), (6, 7, 9), (1, 1, 1),
-                            (0, 0, 9), (1, 6, 10)]:
+        if name == 'K1 present':
+            # (1, 5, 0): a writer, a clearing request and a re-creating one -- the consumer record
+            # is removed and created again under the same uuid (and reaches the same generation
+            # number) while the first writer is in flight
+            triples = [(1, 5, 0)] if quick else [
+                (1, 5, 0), (1, 2, 9), (0, 1, 6), (1, 5, 8), (1, 4, 6), (6, 7, 9), (1, 1, 1),
+                (0, 0, 9), (1, 6, 10), (4, 7, 0), (8, 5, 0)]
+            for a, b, c in triples:
                 out.append({'name': '%s: %s || %s || %s' % (name, o[a]['tag'], o[b]['tag'],
                                                             o[c]['tag']),
-                            'setup': setup, 'requests': [o[a], o[b], o[c]], 'bound': 2,
-                            'max_exec': 6000})
+                            'setup': setup, 'requests': [o[a], o[b], o[c]],
+                            'bound': 1 if quick else 2, 'max_exec': 8000})
     return out
 
 
@@ -78,7 +83,8 @@ def run(ctx):
          'K2; reshaper; DELETE as a disturbing third party; a generation-less 1.12 write) at '
          '1.12/1.28/1.34/1.38 x ALL interleavings at top-level-transaction granularity%s' % (
              'selected %d per state' % len(QUICK_PAIRS) if ctx.quick else 'all 66 with repetition',
-             '' if ctx.quick else '; plus 8 triples with preemption bound 2'))
+             '; plus the writer || clear || re-create triple with preemption bound 1' if ctx.quick
+             else '; plus 11 triples with preemption bound 2'))
 
 
 def replay(ctx, data):
